@@ -126,6 +126,17 @@ def vec_of(items):
     return VecV(tuple(items), S.bv(len(items), 64))
 
 
+class Poison(object):
+    """result of merging incompatible python-level constants; an error only if it is used"""
+    __slots__ = ('why',)
+
+    def __init__(self, why):
+        self.why = why
+
+    def __repr__(self):
+        return 'Poison(%s)' % self.why
+
+
 def merge(c, a, b):
     """value that equals a when c holds and b otherwise"""
     if a is b:
@@ -134,6 +145,10 @@ def merge(c, a, b):
         return b
     if b is UNDEF:
         return a
+    if isinstance(a, Poison):
+        return a
+    if isinstance(b, Poison):
+        return b
     if isinstance(a, S.Term):
         if not isinstance(b, S.Term):
             raise Unsupported('merge term with %r' % (type(b),))
@@ -161,7 +176,7 @@ def merge(c, a, b):
     if isinstance(a, RefV):
         if a == b:
             return a
-        raise Unsupported('merge of different references %r / %r' % (a, b))
+        return Poison('merge of different references %r / %r' % (a, b))
     if isinstance(a, MapV):
         if not isinstance(b, MapV):
             raise Unsupported('merge map with %r' % (b,))
@@ -200,17 +215,6 @@ def merge(c, a, b):
     if a == b:
         return a
     return Poison('merge of %r / %r' % (a, b))
-
-
-class Poison(object):
-    """result of merging incompatible python-level constants; an error only if it is used"""
-    __slots__ = ('why',)
-
-    def __init__(self, why):
-        self.why = why
-
-    def __repr__(self):
-        return 'Poison(%s)' % self.why
 
 
 def veq(a, b):
